@@ -2,6 +2,7 @@ from __future__ import annotations
 
 import binascii
 
+_BASE64_BYTES = b"ABCDEFGHIJKLMNOPQRSTUVWXYZabcdefghijklmnopqrstuvwxyz0123456789+/"
 _BASE64_STRIP = b"=\n"
 _BASE64_PAD1 = b"="
 _BASE64_PAD2 = b"=="
@@ -23,6 +24,10 @@ def b64s_decode(data: bytes | str) -> bytes:
     if isinstance(data, str):
         # needs bytes for replace() call, but want to accept ascii-unicode ala a2b_base64()
         data = data.encode("ascii")
+    if data.translate(None, _BASE64_BYTES):
+        # NOTE: a2b_base64() would silently skip bytes outside the alphabet,
+        #       and ignore anything after a complete "=" padding group.
+        raise TypeError("invalid base64 character")
     offset = len(data) % 4
     if offset == 0:
         pass
